@@ -210,6 +210,23 @@ Fixpoint resolve (rts : list sty) (t : rtree) (k : list opnd) (n : nat)
       (cb ++ ca, oa)
   end.
 
+(* Equality of bound values.  In /repo a binding is a *ssa.Value or a lazily
+   resolved *ssa.Select, and Select.Equal compares two selects structurally:
+   same condition AND equal true/false operands (bindings.go).  In this model
+   every select is resolved when it is created (the phi is emitted by [merge]
+   / [phis] at once), so a binding is always a concrete operand and equality
+   is [opnd_eqb]: the same value number and declared type, or the same
+   constant.  Two different selects are therefore two different value numbers
+   and are never identified — in particular not "because both are still
+   unresolved"; two selects that Go's structural test would identify are two
+   phi values with the same meaning, between which the outer merge emits one
+   more (redundant, harmless) phi.  The only property of the test the
+   correctness proof uses is LowerProof.opnd_eqb_eq: opnd_eqb a b = true ->
+   a = b; [merge_ok]/[phis_ok] emit a phi on the outer condition in every
+   other case.  A compiler change that makes Select.Equal answer true for
+   selects with different conditions or operands has no counterpart satisfying
+   that lemma; on the implementation it is caught by the "nested conditional
+   assignment in both arms" family of the harness (c03MergeFamily). *)
 (* ---- Bindings.Merge: one binding per name bound before the if (ce); the
    type of a selected value is the type the name had before the if (Merge:
    phiType, the wider of the two — equal in a typed program) ---- *)
